@@ -460,12 +460,12 @@ impl World {
                                     it.queue = res.revised_queue_size as usize;
                                     it.discard_oldest = dis;
                                     it.modified = true;
-                                } else {
+                                } else if self.regime == "c24" {
                                     ctx.violate("C24", "modify-failed", res.status_code.name(), format!("ModifyMonitoredItems(queue_size={}) returned {}", newq, res.status_code.name()));
                                 }
                             }
                         }
-                        Recv::Msg(_, m) => {
+                        Recv::Msg(_, m) if self.regime == "c24" => {
                             ctx.violate("C24", "modify-failed", &l2::msg_kind(m), format!("ModifyMonitoredItems(queue_size={}) answered with {}", newq, l2::recv_kind(&r)));
                         }
                         _ => {}
@@ -801,6 +801,20 @@ impl World {
                     subscription_id: 999_999,
                     sequence_number: 1,
                 });
+            }
+            // only the newest message of each subscription: the older ones stay retained
+            "newest" => {
+                for sub in self.subs.iter_mut() {
+                    if !sub.alive {
+                        continue;
+                    }
+                    if let Some(seq) = sub.unacked.pop() {
+                        acks.push(SubscriptionAcknowledgement {
+                            subscription_id: sub.id,
+                            sequence_number: seq,
+                        });
+                    }
+                }
             }
             _ => {
                 for sub in self.subs.iter_mut() {
